@@ -8,18 +8,18 @@ ID = "C15"
 LEVEL = "proof"
 LEAN_MODULES = ["OsmoVerif.Props.C15"]
 DRIVER_MODULES = ["Trxd", "TrxdDump"]
-LEAN_MODEL_MODULES = ["OsmoVerif.Model.TrxdDump", "OsmoVerif.Model.Trxd", "OsmoVerif.Lemmas.TrxdDump", "OsmoVerif.Lemmas.Trxd",
-                      "OsmoVerif.Props.C01"]
+LEAN_MODEL_MODULES = ["OsmoVerif.Model.TrxdDump", "OsmoVerif.Model.TrxdDumpHist", "OsmoVerif.Model.Trxd", "OsmoVerif.Lemmas.TrxdDump",
+                      "OsmoVerif.Lemmas.TrxdDumpHist", "OsmoVerif.Lemmas.Trxd", "OsmoVerif.Props.C01"]
 ASSUMPTIONS = [
-    "theorems are about OsmoVerif.Model.TrxdDump (hand model of DATADump.dump_msg/parse_hdr and DATADumpFile._seek2msg/_parse_msg/parse_msg/parse_all/append_msg/append_all) on top of the TRXD model of C01",
-    "the capture file is a byte list with a cursor with io.BytesIO semantics (short reads at EOF, seeks past EOF allowed, writes at the cursor); the theorems speak about messages appended to an empty file and then read",
-    "stored messages are valid (validate() = ok, soft bits in -127..127); 'equal in every field' = carried(m) as in C01",
-    "tags and HDR_LENGTH regenerated from data_dump.py on every run; control flow tied to the real DATADumpFile on io.BytesIO by differential execution (all versions/modulations/NOPE, skip/count, indices, truncation offsets, corrupted files)",
+    "theorems are about OsmoVerif.Model.TrxdDump / Model.TrxdDumpHist (hand model of DATADump.dump_msg/parse_hdr and DATADumpFile._seek2msg/_parse_msg/parse_msg/parse_all/append_msg/append_all, and of histories of these operations on ONE object: content and cursor carried from one call to the next) on top of the TRXD model of C01",
+    "the capture file is a byte list with a cursor with io.BytesIO semantics (short reads at EOF, seeks past EOF allowed, seek(0, 2), writes at the cursor); the object keeps nothing but this file between two calls (an attribute added to DATADumpFile that influences results shows up as a correspondence break and is searched by the history oracle); a crash is modelled as: the file is cut at octet n and a NEW object is opened on it",
+    "stored messages are valid (validate() = ok, soft bits in -127..127); 'equal in every field' = carried(m) as in C01; after a crash inside a record the property speaks about reads only (appends behind a partial record are covered by history_independence on the content level, not on the message level)",
+    "tags and HDR_LENGTH regenerated from data_dump.py on every run; control flow tied to the real DATADumpFile by differential execution: fresh readers on io.BytesIO (all versions/modulations/NOPE, skip/count, indices, truncation offsets, corrupted files) and histories on one live object made in the three ways the class allows (io.BytesIO, a file object opened w+b, a path the class opens a+b; files under the run's scratch directory): the OS file and CPython's buffered I/O are thereby exercised, not modelled",
 ]
 MANIFEST = {
-    "text": "Lean 4 theorems parse_all_stored, parse_msg_idx, skip_count_slice (incl. the documented range error), truncated_prefix / truncated_parse_msg / truncated_skip_count (for EVERY cut offset: exactly the messages completely written before the cut, no exception; k characterised by the file lengths of the first k and k+1 messages), by induction over the record list using C01's round trips; termination of the parse_all loop proved; model tied to the real DATADumpFile on io.BytesIO (seeded message lists of every class/version/modulation/NOPE, skip/count/index combinations, truncation offsets around every record boundary - thorough: every offset of 80 files -, corrupted files); independent oracle on the real code",
-    "note": "trusted: Lean kernel (+propext, Classical.choice, Quot.sound), gen/trxd_consts.py, harness/py/trxd_harness.py, lib/trxd.py; file I/O is modelled (byte list with cursor), not the OS; on a cut file a skip beyond the complete messages yields False or [] (both: no message, no exception) - stated exactly so in truncated_skip_count",
-    "technique": "Lean 4 proof by induction over records over a hand model (well-founded loop); differential correspondence; oracle with independently computed record boundaries",
+    "text": "Lean 4 theorems parse_all_stored, parse_msg_idx, skip_count_slice (incl. the documented range error), truncated_prefix / truncated_parse_msg / truncated_skip_count (for EVERY cut offset: exactly the messages completely written before the cut, no exception; k characterised by the file lengths of the first k and k+1 messages), by induction over the record list using C01's round trips; termination of the parse_all loop proved. Histories on ONE object: history_independence (for every content, cursor and history - invalid messages, garbage, crashes included - no read raises and every read answers what a fresh reader answers on the bytes stored at that moment; appends go to the end of the content wherever a read left the cursor), read_after_history, history_reads_stored / history_reads_stored_from (every history of appends of valid messages and reads: each parse_msg / parse_all returns index / slice of the messages appended so far, the file at the end equals the one a single append_all writes), history_then_crash (any cut offset after any history, then any reads: the completely written messages), history_crash_on_boundary (cut behind record k: any further history, appends included, as on a capture of the first k messages). Model tied to the real DATADumpFile: fresh readers on io.BytesIO (seeded message lists of every class/version/modulation/NOPE, skip/count/index combinations, truncation offsets around every record boundary - thorough: every offset of 80 files -, corrupted files) and histories on one live object on io.BytesIO / w+b file object / path (a+b): appends interleaved with reads, accesses beyond the end and partial reads before further appends, walks until None, crashes on and off record boundaries, invalid messages, garbage content; independent oracle on the real code for reads and for histories (witnesses shrunk to a minimal history)",
+    "note": "trusted: Lean kernel (+propext, Classical.choice, Quot.sound), gen/trxd_consts.py, harness/py/trxd_harness.py, lib/trxd.py; file I/O is modelled (byte list with cursor), not the OS; on a cut file a skip beyond the complete messages yields False or [] (both: no message, no exception) - stated exactly so in truncated_skip_count / CutAnswer; the defect found while building the history check (append_msg wrote at the cursor a previous read had left; fixed in /repo by a6e12fa) stays in the corpus as the fixed history append-after-partial-read",
+    "technique": "Lean 4 proof by induction over records and over histories over a hand model (well-founded loop); differential correspondence (single calls and whole histories per request line); oracle with record boundaries measured from the real writer",
     "design_ref": "DESIGN.md section 5 C15",
 }
 MODELLED = ["dump_msg", "parse_hdr", "_seek2msg", "_parse_msg", "parse_msg", "parse_all", "append_msg", "append_all"]
@@ -403,7 +403,7 @@ def fixed_hists(run):
             ms += take_msgs(run)
         return ms[:n]
     a, b, c = fresh(3)
-    # a read that stops before the end of the file, then an append (F20: append_msg wrote at the cursor)
+    # a read that stops before the end of the file, then an append (append_msg once wrote at the cursor: /repo fix a6e12fa)
     out.append(("append-after-partial-read", [("L", [a, b]), ("M", 0), ("A", c), ("P", None, None), ("M", 1), ("M", 2),
                                               ("P", 1, 1), ("P", None, 1), ("A", a), ("P", None, None)]))
     # accesses beyond the end, then more appends, then the new messages by index and by skip
